@@ -2605,10 +2605,11 @@ class const_subarray<T, 0, ElementPtr, Layout>
 	constexpr auto operator!=(const_subarray const& other) const {return ! adl_equal(other.base_, other.base_ + 1, this->base_);}
 	constexpr auto operator==(const_subarray const& other) const {return   adl_equal(other.base_, other.base_ + 1, this->base_);}
 
-	constexpr auto operator<(const_subarray const& other) const {
+	template<class TT, class PP, class LL>  // any pointer type on the right (a read-only reference < an array): converting the right-hand side would need array_types' protected constructor
+	constexpr auto operator<(const_subarray<TT, 0, PP, LL> const& other) const {
 		return adl_lexicographical_compare(
 			this->base_, this->base_ + this->num_elements(),
-			other.base_, other.base_ + other.num_elements()
+			other.base(), other.base() + other.num_elements()
 		);
 	}
 
